@@ -17,7 +17,8 @@ import urllib.error
 
 from .stream import SimStream
 
-NET_KINDS = ["refused", "http404", "http500", "timeout", "reset", "truncated", "garbage"]
+NET_KINDS = ["refused", "http404", "http500", "timeout", "reset", "truncated", "garbage", "bad_status",
+             "incomplete_read"]
 
 
 class NetSeam:
@@ -45,6 +46,12 @@ class NetSeam:
             self.fs._note(rec, "inject:" + kind)
             self.fs._deliver(rec, fault, "raise-at-urlopen")
             raise urllib.error.HTTPError(url_s, code, "injected", {}, io.BytesIO(b""))  # type: ignore[arg-type]
+        if kind == "bad_status":  # http.client.HTTPException: neither an OSError nor a ValueError
+            import http.client
+
+            self.fs._note(rec, "inject:bad_status")
+            self.fs._deliver(rec, fault, "raise-at-urlopen")
+            raise http.client.BadStatusLine("\x15\x03\x01 (injected)")
         if kind == "timeout":
             if self.clock is not None:
                 self.clock.advance_us(int(1e6 * (timeout or 3600)))
@@ -56,6 +63,8 @@ class NetSeam:
             raise urllib.error.HTTPError(url_s, 404, "Not Found", {}, io.BytesIO(b""))  # type: ignore[arg-type]
         fail_at = None
         if kind == "reset":
+            fail_at = min(len(body), int(len(body) * float(fault.get("frac", 0.5))))
+        elif kind == "incomplete_read":
             fail_at = min(len(body), int(len(body) * float(fault.get("frac", 0.5))))
         elif kind == "truncated":
             body = body[: int(len(body) * float(fault.get("frac", 0.5)))]
@@ -69,7 +78,7 @@ class NetSeam:
         s = SimStream(body, cuts=() if fail_at is None else (fail_at,), log=None, clock=self.clock, name="urlopen")
         if fail_at is not None:
             s.fail_at_pos = fail_at
-            s.fail_kind = "reset"
+            s.fail_kind = "incomplete_read" if kind == "incomplete_read" else "reset"
             # delivered only if a read is actually issued at or after that position
             s.on_fault = lambda: self.fs._deliver(rec, fault, "raise-at-read")
         return s
